@@ -9,7 +9,7 @@ LEAN_MODS = ["SwcVerif.Props.C07", "SwcVerif.Props.C07Cat"]
 THEOREMS = [
     "C07.rootPath_spec", "C07.redirect_pids", "C07.redirect_edges", "C07.redirect_root", "C07.redirect_types", "C07.redirect_at_root",
     "C07.translate_coincides", "C07.cat_separate", "C07.cat_merged",
-    "C07.second_wfr", "C07.cat_separate_wfr", "C07.cat_separate_sorted",
+    "C07.second_wfr", "C07.cat_separate_wfr", "C07.cat_separate_sorted", "Relabel.isTreeTable_map", "C07.sorted_wf_gen", "C07.cat_merged_sorted",
 ]
 TRUSTED = ["hand-written models Model/Redirect.lean of redirect_tree / cat_tree (tied by the c07.redirect and c07.cat correspondence: parents, node identity, "
            "positions and types after the final sort compared exactly); the final sort is C05's model"]
@@ -259,7 +259,7 @@ TECHNIQUE = ("Lean 4 theorems about the models of redirect_tree (root-path rever
 LEVEL_TEXT = ("Kernel-checked: re-rooting reverses exactly the parent pointers on the root path (so the undirected edge set is unchanged), makes the requested "
               "node the only root and exchanges only the two root types; concatenation builds a table whose rows are tree1's rows unchanged, tree2's rows with ids "
               "shifted and positions translated by one common vector, and whose only new edge is the junction (or, for coincident junction nodes, the merged node's "
-              "children re-hung and the duplicate row deleted); the final numbering is C05's relabelling. For a non-coincident junction the concatenated table is proved to be a "
-              "well-formed tree rooted at tree1's root, so the final sort provably succeeds and returns a well-formed sorted tree with |tree1|+|tree2| nodes "
-              "(for the merged case this last step is checked by the oracle only).")
+              "children re-hung and the duplicate row deleted); the final numbering is C05's relabelling. In both cases the concatenated table is proved to be a tree table "
+              "rooted at tree1's root (for the merged case: with the gap the deleted junction row leaves in the ids), so the final sort provably succeeds and returns a "
+              "well-formed sorted tree with |tree1|+|tree2| (merged: −1) nodes.")
 LEVEL_NOTE = "Trusted: Lean kernel; hand-written models tied by correspondence (all (tree,node) pairs for n ≤ 4/5); numpy concatenate/delete; float32 translation exact on lattice inputs."
